@@ -112,6 +112,12 @@ func (h *handshake) Start(node gen.NodeHandshake, conn net.Conn, options gen.Han
 		return result, fmt.Errorf("malformed handshake Introduce message (same name)")
 	}
 
+	if accept.PoolSize < 1 || accept.PoolSize > maxPoolSize {
+		// it becomes the number of the links to dial and of the receive queues
+		// (0 would be a division by zero in the goroutine that serves the link)
+		return result, fmt.Errorf("malformed handshake Accept message (pool size %d)", accept.PoolSize)
+	}
+
 	// everything looks good. just send an Accept message
 	if err := h.writeMessage(conn, MessageAccept{}); err != nil {
 		return result, err
